@@ -25,6 +25,7 @@ fn any_vec3() -> Vec3 {
 // @ob props=C08,C02 tier=quick kind=P cfg=core-std timeout=900
 // @fn viewport ; Mat4x4<RealToReal>::apply
 // @clause the viewport matrix maps the NDC square into the requested pixel rectangle: for every rectangle with 0 <= l <= r, t <= b < 65536 and every NDC point with |x|,|y| <= 1 the screen point satisfies l <= x_s <= r and t <= y_s <= b, and depth passes through unchanged
+#[cfg(not(verif_skip_mat_viewport_band))]
 #[kani::proof]
 #[kani::unwind(6)]
 fn mat_viewport_band() {
@@ -42,6 +43,7 @@ fn mat_viewport_band() {
 // @ob props=C08,C02 tier=thorough kind=P cfg=core-std timeout=3000
 // @fn viewport ; Mat4x4<RealToReal>::apply
 // @clause the viewport matrix maps the NDC corners exactly onto the requested pixel rectangle: (-1,-1,z) to (l,t,z) and (1,1,z) to (r,b,z) for every rectangle below 65536^2 and every finite z; the centre maps to the rectangle's centre
+#[cfg(not(verif_skip_mat_viewport_corners_exact))]
 #[kani::proof]
 #[kani::unwind(6)]
 fn mat_viewport_corners_exact() {
@@ -60,6 +62,7 @@ fn mat_viewport_corners_exact() {
 // @fn perspective
 // @allow_panic perspective
 // @clause perspective() rejects non-positive focal ratio, aspect ratio or near plane, NaN parameters, and an empty or inverted near..far range: whenever it returns, all of those are positive and near < far
+#[cfg(not(verif_skip_mat_perspective_rejects_bad_parameters))]
 #[kani::proof]
 fn mat_perspective_rejects_bad_parameters() {
     let (fr, ar, near, far): (F, F, F, F) = (kani::any(), kani::any(), kani::any(), kani::any());
@@ -78,6 +81,7 @@ fn any_persp() -> (F, F, F, F) {
 // @ob props=C08 tier=quick kind=P cfg=core-std timeout=1800
 // @fn perspective ; Mat4x4<RealToProj>::apply
 // @clause perspective projection, exact parts: for every parameter set in the documented ranges (far/near <= 1000) and every finite view-space point, w' = z exactly (so w > 0 iff the point is in front of the camera) and the matrix has the documented sparsity
+#[cfg(not(verif_skip_mat_perspective_w_is_depth))]
 #[kani::proof]
 #[kani::unwind(6)]
 fn mat_perspective_w_is_depth() {
@@ -95,6 +99,7 @@ fn mat_perspective_w_is_depth() {
 // @ob props=C08 tier=thorough kind=P cfg=core-std timeout=3600
 // @fn perspective ; Mat4x4<RealToProj>::apply
 // @clause perspective projection, exact parts: x' = focal_ratio * x bit-exactly for every finite point (so |x'| <= w' iff |x| * focal_ratio <= z)
+#[cfg(not(verif_skip_mat_perspective_x_exact))]
 #[kani::proof]
 #[kani::unwind(6)]
 fn mat_perspective_x_exact() {
@@ -109,6 +114,7 @@ fn mat_perspective_x_exact() {
 // @ob props=C08 tier=thorough kind=P cfg=core-std timeout=3600
 // @fn perspective ; Mat4x4<RealToProj>::apply
 // @clause perspective projection, exact parts: y' = (focal_ratio * aspect_ratio) * y bit-exactly for every finite point
+#[cfg(not(verif_skip_mat_perspective_y_exact))]
 #[kani::proof]
 #[kani::unwind(6)]
 fn mat_perspective_y_exact() {
@@ -123,6 +129,7 @@ fn mat_perspective_y_exact() {
 // @ob props=C08 tier=quick kind=P cfg=core-std timeout=1800
 // @fn orthographic ; Mat4x4<RealToProj>::apply
 // @clause orthographic projection: w' = 1 exactly for every finite point and every box; per axis the box corners map to -1 and +1 within 1e-3 whenever the box is not ill-conditioned (|lo|,|hi| <= 100 * (hi - lo), hi > lo)
+#[cfg(not(verif_skip_mat_orthographic_box_to_unit_cube))]
 #[kani::proof]
 #[kani::unwind(6)]
 fn mat_orthographic_box_to_unit_cube() {
@@ -147,6 +154,7 @@ fn mat_orthographic_box_to_unit_cube() {
 // @ob props=C09 tier=quick kind=P cfg=core-std timeout=1800
 // @fn translate ; Mat4x4<RealToReal>::apply_pt
 // @clause translate(t) moves every finite point p to p + t exactly (component-wise, one rounding, same as the vector sum)
+#[cfg(not(verif_skip_mat_translate_point_exact))]
 #[kani::proof]
 #[kani::unwind(6)]
 fn mat_translate_point_exact() {
@@ -161,6 +169,7 @@ fn mat_translate_point_exact() {
 // @ob props=C09 tier=quick kind=P cfg=core-std timeout=1800
 // @fn scale ; Mat4x4::identity ; Mat4x4::from_basis ; Mat4x4<RealToReal>::apply ; Mat4x4<RealToReal>::apply_pt
 // @clause scale(s) multiplies every finite vector and point component-wise by s exactly; identity() leaves vectors and points unchanged; from_basis(i,j,k) sends the unit vectors to i, j, k exactly
+#[cfg(not(verif_skip_mat_scale_identity_basis_exact))]
 #[kani::proof]
 #[kani::unwind(6)]
 fn mat_scale_identity_basis_exact() {
@@ -185,6 +194,7 @@ fn mat_scale_identity_basis_exact() {
 // @ob props=C09 tier=quick kind=P cfg=core-std timeout=900
 // @fn Matrix::transpose ; Matrix::row_vec ; Matrix::col_vec
 // @clause transpose swaps rows and columns (row_vec(i) of the transpose is col_vec(i) of the original) and is an involution, for every 4x4 matrix bit pattern
+#[cfg(not(verif_skip_mat_transpose_involution))]
 #[kani::proof]
 #[kani::unwind(6)]
 fn mat_transpose_involution() {
@@ -202,6 +212,7 @@ fn mat_transpose_involution() {
 // @ob props=C09 tier=quick kind=P cfg=core-std timeout=1800
 // @fn Mat4x4<RealToReal>::determinant
 // @clause the determinant of identity is 1, of a translation is exactly 1, and of scale(s) is the product of the diagonal (for |s| components in [2^-20, 2^20], where no intermediate overflows)
+#[cfg(not(verif_skip_mat_determinant_special_cases))]
 #[kani::proof]
 #[kani::unwind(6)]
 fn mat_determinant_special_cases() {
@@ -216,6 +227,7 @@ fn mat_determinant_special_cases() {
 // @ob props=C09 tier=quick kind=P cfg=core-std timeout=900 role=witness
 // @fn translate ; Mat4x4<RealToReal>::apply
 // @clause WITNESS of a known finding: on vectors a transform should apply its linear part only, i.e. translate(t).apply(v) = v; the code uses homogeneous w = 1 (TODO in the source) and returns v + t
+#[cfg(not(verif_skip_mat_translate_vector_linear_part))]
 #[kani::proof]
 #[kani::unwind(6)]
 fn mat_translate_vector_linear_part() {
@@ -230,6 +242,7 @@ fn mat_translate_vector_linear_part() {
 // @fn Matrix::then ; Matrix::compose
 // @bound the non-commutative family a = scale(s), b = translate(t), all finite s, t in [-1e3, 1e3]; first output row
 // @clause then() is compose() with the operands swapped (bit for bit on row 0), and applying the composite equals applying scale then translate to a point: (b after a)(p).x = s.x * p.x + t.x exactly
+#[cfg(not(verif_skip_mat_then_is_swapped_compose_row0))]
 #[kani::proof]
 #[kani::unwind(6)]
 fn mat_then_is_swapped_compose_row0() {
